@@ -160,7 +160,7 @@ class ApiCheck(object):
     # ------------------------------------------------------------------ exploration
     def explore(self):
         opts = self.opts
-        self.pool = driver.Pool(opts.repo, self.hashseeds, opts.workers)
+        self.pool = driver.Pool(opts.repo, self.hashseeds, opts.workers, wall_cap=300.0)
         self.oracle = RefOracle(self.pool)
         budget = common.Budget(self.budget_s, opts.max_runs)
         started = 0
@@ -474,6 +474,8 @@ class ApiCheck(object):
                      'threads with >=1 context switch, or run/reference hash seeds differ'),
             'samples': self.samples,
             'runs_per_hour': int(st['runs'] * 3600 / max(wall, 1e-6)),
+            'seeds_per_hour': int(st['runs'] * 3600 / max(wall, 1e-6)),
+            'seed_derivation': 'every run has its own PRNG value: sha256(VERIF_SEED, engine, run index, stream)',
             'explore_wall_s': round(wall, 1),
             'simulated_time': 'not applicable: the system under test reads no clock; logical steps are reported instead',
             'scheduler_steps': st['steps'], 'context_switches': st['switches'],
